@@ -207,4 +207,64 @@ theorem reread_setter (a : FieldA) (hwf : a.WF) (allow : Bool) (ha : allow = tru
       rw [hf]; exact abs_tree a hwf
     rw [this]
 
+
+/-! ### the converse: an address in the tree is an alternative of the grammar -/
+
+theorem altAt_isSome (fl : Follow) (post : Gap) (r : RelA) (rest : List AltA) (j : Nat) (h : j < rest.length + 1) :
+    (altAt fl post r rest j).isSome = true := by
+  induction rest generalizing r j with
+  | nil => cases j <;> simp [altAt] at h ⊢
+  | cons a as ih =>
+    cases j with
+    | zero => simp [altAt]
+    | succ j => simp only [altAt]; exact ih a.rel j (by simpa using h)
+
+theorem relAt_isSome (ss : List Seg) (i j : Nat) (rs : List RelRec) (h : S.entry? (itemsA ⟨ss⟩) i = some rs)
+    (hj : j < rs.length) : (relAtSegs ss i j).isSome = true := by
+  induction ss generalizing i with
+  | nil => simp [itemsA, S.entry?] at h
+  | cons s ss ih =>
+    rw [itemsA_cons] at h
+    cases he : s.entry with
+    | alts r rest =>
+      simp only [itemA, he, Option.toList_some, List.singleton_append] at h
+      cases i with
+      | zero =>
+        simp only [S.entry?, Option.some.injEq] at h
+        subst h
+        simp only [relAtSegs, he]
+        exact altAt_isSome _ _ r rest j (by simpa using hj)
+      | succ i' =>
+        simp only [S.entry?] at h
+        simp only [relAtSegs, he]
+        exact ih i' h
+    | substvar p ps =>
+      simp only [itemA, he, Option.toList_some, List.singleton_append, S.entry?] at h
+      simp only [relAtSegs, he]
+      exact ih i h
+    | empty =>
+      simp only [itemA, he, Option.toList_none, List.nil_append] at h
+      simp only [relAtSegs, he]
+      exact ih i h
+
+/-- what `get_entry(i)` / `get_relation(j)` find in the tree of a well-formed field is an alternative of
+    the grammar -/
+theorem relAt_of_addr (a : FieldA) (hwf : a.WF) (f : Field) (hf : f.kids = a.tree.children) (i j p q : Nat)
+    (hp : nthNode .ENTRY f.kids i = some p) (hq : nthNode .RELATION (f.entryKids p) j = some q) :
+    ∃ rj gj flj, relAtSegs a.segs i j = some (rj, gj, flj) := by
+  obtain ⟨pre, e, post, hk, hl, he, hcnt, hne, habs⟩ := abs_split hp
+  subst hl
+  rw [entryKids_split f pre e post hk] at hq
+  obtain ⟨pre', r, post', hk', hl', hr, hcnt'⟩ := nthPos_some hq
+  have hlen : j < (relsOf e).length := by
+    rw [relsOf_eq, List.length_map, cn_length_countP, hk', List.countP_append, List.countP_cons, hcnt', hr]
+    simp
+  have hentry : S.entry? (itemsA a) i = some (relsOf e) := by
+    have : absKids f.kids = itemsA a := by rw [hf]; exact abs_tree a hwf
+    rw [← this, habs, ← hne, S.entry?_at]
+  have := relAt_isSome a.segs i j (relsOf e) hentry hlen
+  cases hra : relAtSegs a.segs i j with
+  | none => rw [hra] at this; cases this
+  | some x => exact ⟨x.1, x.2.1, x.2.2, rfl⟩
+
 end Deb822Verif.Rel.Edit
